@@ -15,6 +15,7 @@ from ..bytes import WriteStream, Writeable
 __all__ = ['MessageContent', 'MessageHeader', 'MessageBody']
 
 _default_type: Final = 'text/plain'
+_max_depth: Final = 100
 
 _Line: TypeAlias = tuple[int, int, int]
 _Lines: TypeAlias = Sequence[_Line]
@@ -61,7 +62,8 @@ class MessageContent(Writeable):
         if ct_hdr is None:
             return False
         else:
-            return ct_hdr.content_type == 'message/rfc822'
+            return ct_hdr.content_type == 'message/rfc822' \
+                and self.body.has_nested
 
     @property
     def json(self) -> Mapping[str, Any]:
@@ -108,12 +110,12 @@ class MessageContent(Writeable):
         return cls._parse(data, view, lines)
 
     @classmethod
-    def _parse(cls, data: bytes, view: memoryview, lines: _Lines) \
-            -> MessageContent:
+    def _parse(cls, data: bytes, view: memoryview, lines: _Lines,
+               depth: int = 0) -> MessageContent:
         header_lines, body_lines = cls._split_lines(data, lines)
         header = MessageHeader._parse(data, view, header_lines)
         content_type = header.parsed.content_type
-        body = MessageBody._parse(data, view, body_lines, content_type)
+        body = MessageBody._parse(data, view, body_lines, content_type, depth)
         return cls(data, header, body)
 
     @classmethod
@@ -361,17 +363,21 @@ class MessageBody(Writeable):
 
     @classmethod
     def _parse(cls, data: bytes, view: memoryview, lines: _Lines,
-               content_type: ContentTypeHeader | None) -> MessageBody:
+               content_type: ContentTypeHeader | None,
+               depth: int = 0) -> MessageBody:
         if content_type is None:
             content_type = cls._parse_content_type(_default_type)
         maintype = content_type.maintype
-        if maintype == 'multipart':
+        if depth >= _max_depth:
+            # nested deeper than anything walks: an opaque body from here on
+            pass
+        elif maintype == 'multipart':
             boundary = cls._get_boundary(content_type)
             if boundary:
                 return cls._parse_multipart(
-                    data, view, lines, content_type, boundary)
+                    data, view, lines, content_type, boundary, depth)
         elif maintype == 'message' and content_type.subtype == 'rfc822':
-            return cls._parse_rfc822(data, view, lines, content_type)
+            return cls._parse_rfc822(data, view, lines, content_type, depth)
         return cls(data, lines, content_type, [])
 
     @classmethod
@@ -398,18 +404,20 @@ class MessageBody(Writeable):
 
     @classmethod
     def _parse_rfc822(cls, data: bytes, view: memoryview, lines: _Lines,
-                      content_type: ContentTypeHeader) -> MessageBody:
-        subpart = MessageContent._parse(data, view, lines)
+                      content_type: ContentTypeHeader,
+                      depth: int) -> MessageBody:
+        subpart = MessageContent._parse(data, view, lines, depth + 1)
         return cls(data, lines, content_type, [subpart])
 
     @classmethod
     def _parse_multipart(cls, data: bytes, view: memoryview, lines: _Lines,
                          content_type: ContentTypeHeader,
-                         boundary: bytes) -> MessageBody:
+                         boundary: bytes, depth: int) -> MessageBody:
         parts = cls._find_parts(data, view, lines, boundary)
         nested: list[MessageContent] = []
         for part_lines in parts:
-            sub_content = MessageContent._parse(data, view, part_lines)
+            sub_content = MessageContent._parse(
+                data, view, part_lines, depth + 1)
             nested.append(sub_content)
         return cls(data, lines, content_type, nested)
 
